@@ -137,6 +137,10 @@ fn residual2(c: &Curve2, m: &Point2) -> f64 {
 
 /// Reference residual for the 3D modes by brute force; for ToPlane any minimising face is accepted
 fn residual3_ok(mesh: &Mesh, m: &Point3, mode: usize, got: f64) -> bool {
+    residual3_ok_unit(mesh, m, mode, got, 1.0)
+}
+
+fn residual3_ok_unit(mesh: &Mesh, m: &Point3, mode: usize, got: f64, u: f64) -> bool {
     let v = mesh.vertices();
     let mut best = f64::MAX;
     let mut cands = Vec::new();
@@ -148,9 +152,44 @@ fn residual3_ok(mesh: &Mesh, m: &Point3, mode: usize, got: f64) -> bool {
         cands.push((d, cp, tri_normal(&a, &b, &c)));
     }
     if mode == 1 {
-        (got - best).abs() <= 1e-9
+        (got - best).abs() <= 1e-9 * u
     } else {
-        cands.iter().any(|(d, cp, n)| (d - best).abs() <= 1e-9 && n.map(|n| (n.dot(&(m - cp)).abs() - got).abs() <= 1e-9).unwrap_or(false))
+        cands.iter().any(|(d, cp, n)| (d - best).abs() <= 1e-9 * u && n.map(|n| (n.dot(&(m - cp)).abs() - got).abs() <= 1e-9 * u).unwrap_or(false))
+    }
+}
+
+/// Recovery inside the basin with the reference, the samples, the displacement and the guess all given in another
+/// length unit (millimetres, kilometres): the rotation is recovered to 1e-6 and the translation to 1e-6 units
+fn judge_unit3(case: &Case, l: &mut Local) {
+    let mk = || serde_json::to_value(case).unwrap();
+    let u = [1e-3, 1e3, 1e-5][case.b % 3];
+    let m1 = mesh_ref(case.shape);
+    let mesh = Mesh::new(m1.vertices().iter().map(|p| Point3::from(p.coords * u)).collect(), m1.faces().to_vec(), false);
+    let samples: Vec<Point3> = mesh_samples(&m1).iter().map(|p| Point3::from(p.coords * u)).collect();
+    let scale_iso = |i: &Iso3| Iso3::from_parts((i.translation.vector * u).into(), i.rotation);
+    let shift = scale_iso(&shifts3()[case.a % shifts3().len()]);
+    let small = [Iso3::identity(), Iso3::new(Vector3::new(0.1, -0.1, 0.05), Vector3::new(0.01, 0.02, -0.01)), Iso3::new(Vector3::new(-0.05, 0.08, -0.1), Vector3::new(-0.02, 0.0, 0.03))][case.guess % 3];
+    let guess = scale_iso(&small);
+    let mode = || if case.mode == 0 { DistMode::ToPlane } else { DistMode::ToPoint };
+    let moved: Vec<Point3> = samples.iter().map(|p| shift * p).collect();
+    l.eval();
+    l.bucket("3D recovery in another length unit");
+    match guarded(|| points_to_mesh(&moved, &mesh, &guess, mode()).map_err(|e| e.to_string())) {
+        Err(e) => {
+            l.check("3D alignment returns", "panic", false, mk, || e.clone());
+        }
+        Ok(Err(e)) => {
+            l.check("3D alignment succeeds inside the stated basin", "unit", false, mk, || format!("unit {:e}: {}", u, e));
+        }
+        Ok(Ok(a)) => {
+            let back = a.transform() * shift;
+            let rot_err = (back.rotation.to_rotation_matrix().matrix() - parry3d_f64::na::Matrix3::identity()).abs().max();
+            let tr_err = back.translation.vector.norm() / u;
+            l.outcome(hash_of(&(case.b, case.mode, rot_err <= 1e-6 && tr_err <= 1e-6)));
+            l.check("3D: returned transform composed with the displacement is the identity", "unit", rot_err <= 1e-6 && tr_err <= 1e-6, mk, || format!("unit {:e} mode {}: rotation error {:e}, translation error {:e} units", u, case.mode, rot_err, tr_err));
+            let honest = moved.iter().enumerate().all(|(i, p)| residual3_ok_unit(&mesh, &(a.transform() * p), case.mode, a.residuals()[i], u));
+            l.check("3D: reported residuals equal the mode-specific distances of the moved points", "unit", honest && a.residuals().len() == moved.len(), mk, || format!("unit {:e}", u));
+        }
     }
 }
 
@@ -405,6 +444,7 @@ pub fn judge(case: &Case, l: &mut Local) {
         "rec2" => judge_rec2(case, false, l),
         "wild2" => judge_rec2(case, true, l),
         "rec3" => judge_rec3(case, false, l),
+        "unit3" => judge_unit3(case, l),
         "wild3" => judge_rec3(case, true, l),
         "turned2" => judge_rec2(case, true, l),
         "turned3" => judge_rec3(case, true, l),
@@ -424,6 +464,16 @@ pub fn cases(tier: Tier) -> Vec<Case> {
     for shape in 0..2 {
         for mode in 0..2 {
             out.push(c("hist3", shape, mode, 0, 0, 0));
+        }
+    }
+    // the 3D basin in millimetres and kilometres (every ninth displacement in the quick tier)
+    for shape in 0..2 {
+        for mode in 0..2 {
+            for a in (0..shifts3().len()).step_by(if tier == Tier::Quick { 9 } else { 1 }) {
+                for b in 0..3 {
+                    out.push(c("unit3", shape, mode, a, b, a % 3));
+                }
+            }
         }
     }
     for shape in 0..3 {
@@ -476,10 +526,10 @@ pub fn cases(tier: Tier) -> Vec<Case> {
 
 pub fn run(tier: Tier) -> i32 {
     let mut cx = Ctx::new("C07", tier, "model_checking");
-    cx.rule = "MC: every set_params history of length <= 3 (thorough: 4) over a 5-vector alphabet (start, two small, two large moves) of the private 2D points-to-curve problem (3 reference curves x 2 initial guesses) and the 3D points-to-mesh problem (2 meshes x 2 distance modes), each compared with a fresh problem whose history is just the last element, residuals recomputed by brute force. EX: recovery of every displacement of the stated basin (2D: {-.05,0,.05}^2 x {0,+-3,+-10 deg}; 3D: {-.1,0,.1}^3 x {0, +-2 deg about x, y, z, (1,1,1)}; at most 5% of the smallest feature) x 2 initial guesses x sample densities x both DistModes on rectangle / L-shape / pentagon and box / L-prism; out-of-basin starts (25-40 deg) judged for residual honesty only; 'turned parts': displacements of 60-170 deg (2D) / 1.2-3 rad (3D) with translations, started from a guess within the basin of the exact answer, must be recovered. distinct = distinct cases".into();
+    cx.rule = "MC: every set_params history of length <= 3 (thorough: 4) over a 5-vector alphabet (start, two small, two large moves) of the private 2D points-to-curve problem (3 reference curves x 2 initial guesses) and the 3D points-to-mesh problem (2 meshes x 2 distance modes), each compared with a fresh problem whose history is just the last element, residuals recomputed by brute force. EX: recovery of every displacement of the stated basin (2D: {-.05,0,.05}^2 x {0,+-3,+-10 deg}; 3D: {-.1,0,.1}^3 x {0, +-2 deg about x, y, z, (1,1,1)}; at most 5% of the smallest feature) x 2 initial guesses x sample densities x both DistModes on rectangle / L-shape / pentagon and box / L-prism; the 3D basin also with everything in millimetres and in kilometres; out-of-basin starts (25-40 deg) judged for residual honesty only; 'turned parts': displacements of 60-170 deg (2D) / 1.2-3 rad (3D) with translations, started from a guess within the basin of the exact answer, must be recovered. distinct = distinct cases".into();
     DEEP.store(tier == Tier::Thorough, std::sync::atomic::Ordering::Relaxed);
     cx.bounds = json!({"history_len": tier.pick(3, 4), "alphabet": 5, "shifts2": shifts2().len(), "shifts3": shifts3().len(), "shifts3_subsampling": tier.pick(3, 1)});
-    cx.require(&["2D set_params history", "3D set_params history", "2D displacement inside the basin", "2D start outside the basin", "3D plane mode inside the basin", "3D point mode inside the basin", "3D start outside the basin", "2D turned part, guess near the answer", "3D turned part, guess near the answer", "3D open bracket, samples sliding off free edges", "2D result with residuals of both signs"]);
+    cx.require(&["2D set_params history", "3D set_params history", "2D displacement inside the basin", "2D start outside the basin", "3D plane mode inside the basin", "3D point mode inside the basin", "3D start outside the basin", "2D turned part, guess near the answer", "3D turned part, guess near the answer", "3D open bracket, samples sliding off free edges", "2D result with residuals of both signs", "3D recovery in another length unit"]);
     cx.assume("basin: translations up to 5% of the smallest feature, rotations up to 10 deg (2D) / 2 deg (3D), guesses within 2 deg / 0.1; recovery judged at 1e-6 on matrix entries; plane-mode residuals may use any minimising face");
     let cs = cases(tier);
     let l = sweep(&cs, judge);
